@@ -9,6 +9,7 @@
 #include "detail/assert.hpp"
 #include "default_allocator.hpp"
 #include "error.hpp"
+#include "detail/verif_hooks.hpp"
 
 using namespace foonathan::memory;
 
@@ -79,8 +80,10 @@ public:
 
     temporary_stack* find_unused()
     {
+        FOONATHAN_MEMORY_VERIF_YIELD(1);
         for (auto ptr = first.load(); ptr; ptr = ptr->next_)
         {
+            FOONATHAN_MEMORY_VERIF_YIELD(2);
             auto value = false;
             if (ptr->in_use_.compare_exchange_strong(value, true))
                 return static_cast<temporary_stack*>(ptr);
@@ -104,11 +107,13 @@ public:
     {
         // stack should be empty now, so shrink_to_fit() clears all memory
         stack.stack_.shrink_to_fit();
+        FOONATHAN_MEMORY_VERIF_YIELD(6);
         stack.in_use_ = false; // mark as free
     }
 
     void destroy()
     {
+        FOONATHAN_MEMORY_VERIF_YIELD(7);
         for (auto ptr = first.exchange(nullptr); ptr;)
         {
             auto stack = static_cast<temporary_stack*>(ptr);
@@ -148,7 +153,9 @@ namespace
 
 detail::temporary_stack_list_node::temporary_stack_list_node(int) noexcept : in_use_(true)
 {
+    FOONATHAN_MEMORY_VERIF_YIELD(3);
     next_ = temporary_stack_list_obj.first.load();
+    FOONATHAN_MEMORY_VERIF_YIELD(4);
     while (!temporary_stack_list_obj.first.compare_exchange_weak(next_, this))
         ;
     (void)&thread_exit_detector; // ODR-use it, so it will be created
